@@ -1416,6 +1416,36 @@ struct Proc {
     rx: Receiver<Option<(Value, Vec<u64>)>>,
 }
 
+static STACK_KIB_FOR_MEASUREMENT: std::sync::atomic::AtomicUsize = std::sync::atomic::AtomicUsize::new(0);
+
+/// Information for the reader, never a verdict: the smallest thread stack (in
+/// steps of 32 KiB, from 2 MiB down) on which the deepest pointer ladders still
+/// decode.  The check itself runs at exactly 2 MiB; the distance says how much
+/// room the recursive decoder leaves for the frames a server worker has above it.
+fn measure_stack_headroom() -> Value {
+    let inputs: Vec<Vec<u8>> = (0u8..2).map(|k| ladder(max_ladder_depth(k), k, 0)).collect();
+    let mut smallest_ok: Option<usize> = None;
+    let mut largest_failing: Option<usize> = None;
+    let mut kib = 2048usize;
+    while kib >= 1024 {
+        STACK_KIB_FOR_MEASUREMENT.store(kib, std::sync::atomic::Ordering::SeqCst);
+        let r = run_fresh(&x_request(&inputs), Duration::from_secs(30));
+        if failed(&r).is_some() {
+            largest_failing = Some(kib);
+            break;
+        }
+        smallest_ok = Some(kib);
+        kib -= 32;
+    }
+    STACK_KIB_FOR_MEASUREMENT.store(0, std::sync::atomic::Ordering::SeqCst);
+    json!({
+        "deepest_ladders_decode_on_a_stack_of_kib": smallest_ok,
+        "and_overflow_on_kib": largest_failing,
+        "stack_of_the_check_and_of_a_server_worker_kib": 2048,
+        "note": "measurement only; a change that makes the decoder's frame bigger shows up here before it shows up as an overflow",
+    })
+}
+
 fn spawn_child() -> Option<Proc> {
     spawn_child_opt(false).map(|(p, _)| p)
 }
@@ -1424,13 +1454,17 @@ fn spawn_child() -> Option<Proc> {
 /// is returned (it ends when the child has gone).
 fn spawn_child_opt(trace: bool) -> Option<(Proc, Option<std::thread::JoinHandle<Vec<u8>>>)> {
     let exe = std::env::current_exe().ok()?;
-    let mut child = Command::new(exe)
-        .args(["worker", "C03", "serve"])
+    let mut cmd = Command::new(exe);
+    cmd.args(["worker", "C03", "serve"])
         .stdin(Stdio::piped())
         .stdout(Stdio::piped())
-        .stderr(if trace { Stdio::piped() } else { Stdio::null() })
-        .spawn()
-        .ok()?;
+        .stderr(if trace { Stdio::piped() } else { Stdio::null() });
+    // only the headroom measurement (after the check proper) sets this
+    let kib = STACK_KIB_FOR_MEASUREMENT.load(std::sync::atomic::Ordering::SeqCst);
+    if kib != 0 {
+        cmd.env("VERIF_C03_STACK_KIB", kib.to_string());
+    }
+    let mut child = cmd.spawn().ok()?;
     let err_reader = if trace {
         let mut e = child.stderr.take()?;
         Some(std::thread::spawn(move || {
@@ -2043,6 +2077,9 @@ pub fn run(ctx: &Ctx) -> i32 {
         report.extra.insert("stopped_early".into(), json!(format!("{} jobs ended abnormally; exploration stopped", failures.len())));
     }
     report.outcome_histogram = t.hist.clone();
+    if failures.is_empty() {
+        report.extra.insert("stack_headroom".into(), measure_stack_headroom());
+    }
     report.extra.insert("nontrivial_not_deduplicated".into(), json!(t.nontrivial_other));
     report.extra.insert("violation_counts".into(), json!(t.viol_counts));
     report.extra.insert("slowest_single_decode_us".into(), json!({"microseconds": t.max_us, "input_octets": t.max_us_len, "measured_on": "size extremes only"}));
